@@ -524,6 +524,86 @@ func c05Propagation(r *Run) {
 			}
 		})
 	}
+	// (2b) the set-version wrappers record the version unconditionally: in the encoder every path to the wrapped
+	// coder passes setVersion first; in the decoder every return that is not the wrapped decoder's error follows it
+	for _, w := range []string{"applySetVersionEncode", "applySetVersionDecode"} {
+		bf := p.Func("ttlv", "", w)
+		key := "ttlv." + w + "/records-always"
+		if bf == nil {
+			r.Unk("C05.V3", key, token.NoPos, "anchor missing")
+			continue
+		}
+		var cl *ssa.Function
+		for _, af := range bf.AnonFuncs {
+			cl = af
+		}
+		if cl == nil {
+			r.Unk("C05.V3", key, bf.Pos(), "wrapper closure not found")
+			continue
+		}
+		var setCalls []ssa.Instruction
+		var inner *ssa.Call
+		allInstrs(cl, func(in ssa.Instruction) {
+			c, ok := in.(*ssa.Call)
+			if !ok {
+				return
+			}
+			if callID(&c.Call).is(tt.PkgPath, "extension", "setVersion") {
+				setCalls = append(setCalls, in)
+			} else if c.Call.StaticCallee() == nil && !c.Call.IsInvoke() && len(c.Call.Args) == 3 {
+				inner = c
+			}
+		})
+		paths, okP := enumeratePaths(cl, 256)
+		bad := token.NoPos
+		for _, path := range paths {
+			set, errPath, inf := false, false, false
+			setBeforeInner := false
+			for i, b := range path {
+				for _, in := range b.Instrs {
+					for _, sc := range setCalls {
+						if in == sc {
+							set = true
+						}
+					}
+					if inner != nil && in == ssa.Instruction(inner) && set {
+						setBeforeInner = true
+					}
+				}
+				cond, isTrue, ok, infeasible := edgeOnPath(path, i)
+				if infeasible {
+					inf = true
+				}
+				if ok {
+					if bo, isB := cond.(*ssa.BinOp); isB && isNilConst(bo.Y) && (bo.Op == token.NEQ) == isTrue && types.Identical(bo.X.Type(), types.Universe.Lookup("error").Type()) {
+						errPath = true
+					}
+				}
+			}
+			if inf || errPath {
+				continue
+			}
+			okPath := set
+			if w == "applySetVersionEncode" {
+				okPath = setBeforeInner || (set && inner == nil)
+			}
+			if !okPath {
+				last := path[len(path)-1]
+				bad = last.Instrs[len(last.Instrs)-1].Pos()
+				if !bad.IsValid() {
+					bad = cl.Pos()
+				}
+			}
+		}
+		switch {
+		case !okP || len(setCalls) == 0:
+			r.Unk("C05.V3", key, cl.Pos(), "setVersion call / paths of the wrapper not recognised")
+		case bad.IsValid():
+			r.Bad("C05.V3", key, bad, "%s records the protocol version only under a condition: for the versions that fail it (e.g. minor 0: KMIP 1.0) the coder stays version-less and every element of a later KMIP version is emitted into, or accepted from, a message framed at that version", w)
+		default:
+			r.OK("C05.V3", key, cl.Pos(), "%d path(s): the version is recorded on every path (before the wrapped encoder / after a successful decode)", len(paths))
+		}
+	}
 	// (3) Clear exists and resets the version
 	if cf := p.Func("ttlv", "Encoder", "Clear"); cf == nil {
 		r.Unk("C05.V3", "ttlv.Encoder.Clear", token.NoPos, "anchor missing")
